@@ -51,6 +51,8 @@ run "is written with its epoch date" C12
 run "rollback also takes back that the file was there" C05 C06 C09
 run "expected behind the frozen lines is not looked for among them" C02
 run "date of a header line is looked for behind the name only" C12
+run "can not be listed is an error" C18
+run "beyond the file size limit fails" C18
 # the check of backups uses the function that the check of targets introduced: undone together
 c3=$(h "does not follow a symbolic link below .pc"); c4=$(h "leads out of the working directory through a symbolic link")
 tools/revert_eval.sh $c3,$c4 C19 2>&1 | grep -v conda | cut -c1-220 >> $out
